@@ -87,7 +87,8 @@ type leaf struct {
 type node struct {
 	kind int
 	l, r *node
-	num  int // explicit power / distance (0 = default, written without a number)
+	num  int // explicit power / distance (only meaningful when hasNum)
+	hasNum bool
 	lf   *leaf
 }
 
@@ -210,7 +211,12 @@ func genTree(depth int, ops []int, forms []int) *node {
 	case nBoost, nFuzzy:
 		n := &node{kind: k, l: genTree(depth-1, ops, forms)}
 		if rtChoose("num", 2) == 1 {
-			n.num = 2 + rtChoose("numv", 2) // 2 or 3
+			n.hasNum = true
+			if k == nFuzzy {
+				n.num = []int{2, 3, 0}[rtChoose("numv", 3)] // a distance of 0 is accepted
+			} else {
+				n.num = 2 + rtChoose("numv", 2) // 2 or 3
+			}
 		}
 		return n
 	}
@@ -337,7 +343,7 @@ func endsOpen(n *node) bool {
 	for {
 		switch n.kind {
 		case nBoost, nFuzzy:
-			return n.num == 0
+			return !n.hasNum
 		case nAnd, nOr:
 			n = n.r
 		case nNot, nMust, nMustNot:
@@ -378,12 +384,12 @@ func printNode(n *node, min int, o *printOpts) string {
 		s = "+" + printNode(n.l, lv, o)
 	case nBoost:
 		s = printNode(n.l, lv, o) + "^"
-		if n.num > 0 {
+		if n.hasNum {
 			s += string([]byte{byte('0' + n.num)})
 		}
 	case nFuzzy:
 		s = printNode(n.l, lv, o) + "~"
-		if n.num > 0 {
+		if n.hasNum {
 			s += string([]byte{byte('0' + n.num)})
 		}
 	}
@@ -555,13 +561,13 @@ func matchTree(v any, n *node, df string) bool {
 		return e.Op == expr.MustNot && e.Right == nil && matchTree(e.Left, n.l, df)
 	case nBoost:
 		want := 1.0
-		if n.num > 0 {
+		if n.hasNum {
 			want = float64(n.num)
 		}
 		return e.Op == expr.Boost && e.Right == nil && expr.VerifBoostPower(e) == want && matchTree(e.Left, n.l, df)
 	case nFuzzy:
 		want := 1
-		if n.num > 0 {
+		if n.hasNum {
 			want = n.num
 		}
 		return e.Op == expr.Fuzzy && e.Right == nil && expr.VerifFuzzyDistance(e) == want && matchTree(e.Left, n.l, df)
